@@ -49,8 +49,11 @@ package coalesce
 //@   ensures [others-kept] SameExcept(q, i)
 //@   ensures [inv] QInv(q)
 
+// dequeues: items handed out by next (ghost).
+//@ ghost dequeues int
 //@ func (*Queue).next
 //@   props C11 C08 C04 C12
+//@   effect dequeues := dequeues + ite(res2, 1, 0)
 //@   locks q
 //@   requires q != nil
 //@   ensures [empty] old(len(q.queue)) == 0 ==> res0 == nil && res1 == 0 && !res2 && len(q.queue) == 0
@@ -77,6 +80,9 @@ package coalesce
 //@   modifies ghost insertSteps
 //@   ensures [refused-after-close] old(closed(q.closed)) ==> !res0 && res1 == errClosedQueue && insertSteps == old(insertSteps)
 //@   ensures [accepted] !old(closed(q.closed)) ==> res1 == nil && insertSteps == old(insertSteps) + 1
+// A waiting consumer is woken for a NEW item (a non-blocking signal is attempted), never for a coalesced duplicate.
+//@   ensures [new-item-signalled C11 C04 C08] res0 ==> sends(q.inserted) == old(sends(q.inserted)) + 1
+//@   ensures [duplicate-not-signalled C11] !res0 ==> sends(q.inserted) == old(sends(q.inserted))
 
 //@ func (*Queue).Close
 //@   props C11 C12
@@ -99,6 +105,10 @@ package coalesce
 //@   requires QStable(q) && ctx != nil
 //@   ensures [closed-only-when-empty] res2 == errClosedQueue ==> closed(q.closed) && len(q.queue) == 0
 //@   ensures [valid-item] res2 == nil ==> !has(q.coalesced, res0) && QInv(q)
+//@   modifies ghost dequeues
+//@   invariant 0: dequeues == old(dequeues)
+//@   ensures [exactly-one-item-consumed C11 C04] (res2 == nil ==> dequeues == old(dequeues) + 1) && (res2 != nil ==> dequeues == old(dequeues))
+//@   ensures [an-error-carries-nothing C11] res2 != nil ==> res0 == nil && res1 == 0
 
 //@ func IsClosedQueue
 //@   props C11 C05 C12
